@@ -84,6 +84,8 @@ func sumNodes(sum jv) []jv { return sum.arr[0].arr }
 func nodeID(n jv) string   { return n.arr[0].s }
 func nodeTy(n jv) int      { return int(n.arr[1].i) }
 
+var lastInfo fileInfo // the first save of the last history (distribution bookkeeping only)
+
 // histCases runs one history; it yields one case, or two when the reload differs only by the known
 // over-read / missing Image description (the second case carries the observations after undoing exactly
 // that difference through the API, and must hold in full).
@@ -111,6 +113,7 @@ func histCases(d histDesc) []hx.Case {
 	if a.err != "" {
 		return fail("before reload: "+a.err, "graph:save-fails")
 	}
+	lastInfo = a.sv.info
 	// the SAME instance saved repeatedly
 	digs := []string{digest(a.sv.bytes).s}
 	for k := 0; k < 3; k++ {
@@ -343,6 +346,17 @@ func main() {
 		cs := histCases(d)
 		for _, c := range cs {
 			run.Add(c)
+		}
+		switch m := lastInfo.maxArray; {
+		case m >= 11:
+			run.Count("array-connections:>=11")
+		case m >= 1:
+			run.Count("array-connections:1-10")
+		default:
+			run.Count("array-connections:0")
+		}
+		if lastInfo.nPayloads >= 2 {
+			run.Count("binary-payloads:>=2")
 		}
 		if len(cs) > 1 {
 			run.Count("hist:reload-differs-by-known-defect")
